@@ -356,7 +356,22 @@ func ruleC04Descend(c *Ctx) {
 		ok = false
 	}
 	// guards of the two alternatives
-	childHasPath := func(facts []condFact) (known, truth bool) {
+	// the object whose maximum an edge updates: a guard reading that same
+	// object tests the parent accumulated so far, not the child
+	updated := func(ed *effEdge) ssa.Value {
+		if ci, isCall := ed.Site.(ssa.CallInstruction); isCall && len(ci.Common().Args) > 0 {
+			if fa, isFA := ci.Common().Args[0].(*ssa.FieldAddr); isFA {
+				return fa.X
+			}
+		}
+		if st, isStore := ed.Site.(*ssa.Store); isStore {
+			if fa, isFA := st.Addr.(*ssa.FieldAddr); isFA {
+				return fa.X
+			}
+		}
+		return nil
+	}
+	childHasPath := func(facts []condFact, parent ssa.Value) (known, truth bool) {
 		for _, fct := range facts {
 			cond, t := normCond(fct.Cond, fct.Truth)
 			cmp, isCmp2 := cond.(*ssa.BinOp)
@@ -385,7 +400,7 @@ func ruleC04Descend(c *Ctx) {
 			var tag string
 			switch x := lhs.(type) {
 			case *ssa.UnOp:
-				if fa, isFA := x.X.(*ssa.FieldAddr); isFA {
+				if fa, isFA := x.X.(*ssa.FieldAddr); isFA && (parent == nil || fa.X != parent) {
 					tag = nodeOfField(fieldOfAddr(fa))
 				}
 			case *ssa.Field:
@@ -413,8 +428,8 @@ func ruleC04Descend(c *Ctx) {
 		}
 		return factsAt(ed.Site.Block())
 	}
-	kl, tl := childHasPath(guardFacts(long))
-	ks, ts := childHasPath(guardFacts(short))
+	kl, tl := childHasPath(guardFacts(long), updated(long))
+	ks, ts := childHasPath(guardFacts(short), updated(short))
 	if kl && tl && ks && !ts {
 		c.hold("C04.descend", "path-length-guard", posOf(long.Site), "name+1+child length iff the child has a non-empty path; the bare name length otherwise")
 	} else {
